@@ -52,7 +52,7 @@ def judge(oracle, raw, tree, P_req, B, name):
 
 def hasher_agreement(path, P):
     """C10 second half: every v2-capable hasher gives the same description."""
-    H = tf.torrentfile.hasher
+    H = tf.hasher
     probs = []
     with tf.quiet():
         h2 = H.HasherV2(path, P, progress=0,
